@@ -38,12 +38,19 @@ Proof.
   destruct (op_ok [point; kind; t; d]) eqn:Hok; [|discriminate].
   unfold op_ok in Hok. repeat (apply andb_prop in Hok; destruct Hok as [Hok ?]).
   apply Z.ltb_lt in H2, H1. apply Z.leb_le in H0.
-  destruct (reaches_server point); inversion H; subst; cbn [clause_op forallb snd]; rewrite Z.eqb_refl; cbn [andb Z.eqb Z.leb Z.compare].
+  destruct (reaches_server point) eqn:Hrs; inversion H; subst; cbn [clause_op forallb snd]; rewrite Z.eqb_refl;
+    unfold peer_told; rewrite Hrs; cbn [andb orb Z.eqb Z.leb Z.compare].
   - pose proof (server_deadline_not_earlier d ltac:(lia)) as [A B].
     replace (0 <=? server_timeout d - d) with true by (symmetry; apply Z.leb_le; lia).
     replace (server_timeout d - d <? ns_hour) with true by (symmetry; apply Z.ltb_lt; lia). reflexivity.
-  - reflexivity.
+  - destruct (point =? 6); reflexivity.
 Qed.
+
+(* the sixth blocking point (a unary RPC in the middle of a message payload) is left like the
+   others, never reaches a grpc handler in this model, and the peer is told by RST_STREAM *)
+Theorem mid_message_block : forall kind t d, op_ok [6; kind; t; d] = true ->
+  run_op [6; kind; t; d] = Some [status_of kind; 0; 0; 0; 1].
+Proof. intros kind t d H. unfold run_op. rewrite H. reflexivity. Qed.
 
 Theorem model_trace_holds : forall cfg ops, forallb op_ok ops = true ->
   exists obs, run cfg ops = Some obs /\ holds_b cfg ops obs = true.
